@@ -708,6 +708,13 @@ def run_yaml(case, ctx):
         if m is not M.SKIP and m["num_tested"]:
             ctx.mark_nontrivial((text, repr(doc)))
             ctx.sample({"yaml": text, "doc": doc}, cap=2)
+    # history: both twins have now validated a document (and been looked at); what was equal is still equal
+    if r1[0] and r2[0] and all(max(slot_sizes(p)) <= 2 for r in rules for p in r["path"]["parts"]) and "shorthand+long" not in sp.features:
+        build._look(obj)
+        okq, eq = call(lambda: obj == api)
+        ctx.count("yaml:equality-after-use")
+        if not okq or eq is not True:
+            ctx.violate("C10/yaml/neq-after-use", f"after both had validated a document, Schema.from_yaml(text) != the schema built through the API; yaml:\n{text}")
     # history: the schema returned for this text is changed by its owner; parsing the same text
     # again must still give the schema the text describes
     if not case.get("file"):
